@@ -8,7 +8,10 @@ use http::{HeaderMap, Request, Response};
 use std::cmp::Ordering;
 use std::io;
 use std::task::{Context, Poll, Waker};
+#[cfg(not(feature = "verif"))]
 use std::time::Instant;
+#[cfg(feature = "verif")]
+use crate::verif::Instant;
 
 #[derive(Debug)]
 pub(super) struct Recv {
@@ -1362,5 +1365,24 @@ impl Open {
 impl<T> From<Error> for RecvHeaderBlockError<T> {
     fn from(err: Error) -> Self {
         RecvHeaderBlockError::State(err)
+    }
+}
+
+#[cfg(feature = "verif")]
+impl Recv {
+    pub(super) fn verif_fill(&self, s: &mut crate::verif::VerifStats) {
+        let (w, a) = self.flow.verif_raw();
+        s.conn_recv_window = w;
+        s.conn_recv_available = a;
+        s.conn_recv_in_flight = self.in_flight_data;
+        s.recv_buffer_slots = self.buffer.verif_len();
+        s.recv_buffer_data_bytes = self
+            .buffer
+            .verif_iter()
+            .map(|e| match e {
+                Event::Data(d) => d.payload.len(),
+                _ => 0,
+            })
+            .sum();
     }
 }
